@@ -92,8 +92,8 @@ def lenient_deframe(stream):
                 good = crc8(body) == 0
                 out.append((bytes(body[:-1]) if good else None, start, k))
                 body = bytearray()
-                esc = False
                 start = k
+            esc = False         # a delimiter always ends a pending escape, also when nothing else stood between two delimiters
             continue
         if b == 0xFD:
             esc = True
